@@ -174,6 +174,7 @@ class Inliner(object):
         self.inlined = []
         self._sites = {}
         self._vec = {}
+        self.taken = set()
 
     def inlinable(self, caller, call, stack):
         callee = self.resolve(caller, call)
@@ -289,8 +290,9 @@ class Inliner(object):
                     value=copy.deepcopy(arg), lineno=call.lineno), call))
                 locals_map[name] = fresh
         for name in stored:
-            if name not in params:
+            if name not in params and name in self.taken:
                 locals_map[name] = '%s__%s' % (tag, name)
+        self.taken |= stored
         body = copy.deepcopy(raw.body)
         # drop the docstring
         if body and isinstance(body[0], ast.Expr) and isinstance(
@@ -326,6 +328,11 @@ class Inliner(object):
                 node.end_lineno = getattr(call, 'end_lineno', call.lineno)
                 node.end_col_offset = getattr(call, 'end_col_offset', 0)
         self.inlined.append(callee.fq)
+        stats = self.index.__dict__.setdefault('inline_stats', {})
+        stats.setdefault(callee.fq, set()).add(
+            (caller.fq, call.lineno, call.col_offset))
+        totals = self.index.__dict__.setdefault('inline_totals', {})
+        totals[callee.fq] = self.call_sites(callee)
         return pre + [block]
 
     def process(self, caller, stmts, stack):
@@ -407,6 +414,9 @@ def inline_function(index, func, resolver):
     (new FunctionDef, [inlined callee names])."""
     inl = Inliner(index, resolver)
     node = copy.deepcopy(func.raw)
+    inl.taken = set(n.id for n in ast.walk(func.raw)
+                    if isinstance(n, ast.Name)) | set(
+                        a.arg for a in func.raw.args.args)
     node.body = inl.process(func, node.body, [func.fq])
     ast.fix_missing_locations(node)
     return node, inl.inlined
